@@ -301,8 +301,10 @@ def sigma_filter(filename, region, step_size, box_size, shape, domask,
     _verif_point(ymin, 'a1')
 
     logging.debug("background subtraction")
-    data[0 + ymin - data_row_min: data.shape[0] -
-         (data_row_max - ymax), :] -= ibkg[ymin:ymax, :]
+    # every stripe has written its rows of ibkg by now (barrier above), so
+    # subtract the background from *all* the rows that the boxes of this
+    # stripe read, not only from the rows that this stripe owns
+    data -= ibkg[data_row_min:data_row_max, :]
     logging.debug(".. done ")
 
     # reset/recycle the vals array
